@@ -14,12 +14,18 @@ package checks
 // kmount_unavailable and decide nothing (no floor depends on them).
 
 import (
+	"bufio"
 	"context"
 	"crypto/sha256"
 	"database/sql"
+	"encoding/json"
+	"errors"
 	"fmt"
+	"io"
 	"os"
+	"os/exec"
 	"path/filepath"
+	"runtime"
 	"sort"
 	"strings"
 	"sync"
@@ -106,12 +112,21 @@ func kmountAvailable() (bool, string) {
 
 // ---------------------------------------------------------------------------
 
-type sqlDB struct {
+// localSQL is an in-process SQLite connection. It is used (a) inside the SQL
+// child process for everything that touches a kernel mount and (b) in the
+// worker itself only for plain files outside any mount.
+//
+// SQLite must NOT run on the mount from the process that serves the mount:
+// WAL mode maps the -shm file, and munmap/page-fault paths then wait for FUSE
+// requests while holding the address space's mmap lock, which the serving
+// goroutines of the same process need - a kernel-level self-deadlock that
+// nothing but aborting the FUSE connection resolves (seen once, see DESIGN 5.4).
+type localSQL struct {
 	db   *sql.DB
 	conn *sql.Conn
 }
 
-func openSQL(path string, readOnly bool, params ...string) (*sqlDB, error) {
+func openLocalSQL(path string, readOnly bool, params ...string) (*localSQL, error) {
 	dsn := "file:" + path + "?_busy_timeout=8000"
 	if readOnly {
 		dsn += "&mode=ro"
@@ -129,10 +144,10 @@ func openSQL(path string, readOnly bool, params ...string) (*sqlDB, error) {
 		db.Close()
 		return nil, err
 	}
-	return &sqlDB{db: db, conn: conn}, nil
+	return &localSQL{db: db, conn: conn}, nil
 }
 
-func (s *sqlDB) close() {
+func (s *localSQL) close() {
 	if s == nil {
 		return
 	}
@@ -140,14 +155,14 @@ func (s *sqlDB) close() {
 	_ = s.db.Close()
 }
 
-func (s *sqlDB) exec(q string) error {
+func (s *localSQL) exec(q string) error {
 	ctx, cancel := context.WithTimeout(context.Background(), 60*time.Second)
 	defer cancel()
 	_, err := s.conn.ExecContext(ctx, q)
 	return err
 }
 
-func (s *sqlDB) queryString(q string) (string, error) {
+func (s *localSQL) queryString(q string) (string, error) {
 	ctx, cancel := context.WithTimeout(context.Background(), 60*time.Second)
 	defer cancel()
 	var out string
@@ -157,7 +172,7 @@ func (s *sqlDB) queryString(q string) (string, error) {
 
 // contentHash reads schema and every row of every table inside one read
 // transaction and hashes them.
-func (s *sqlDB) contentHash() (string, error) {
+func (s *localSQL) contentHash() (string, error) {
 	ctx, cancel := context.WithTimeout(context.Background(), 120*time.Second)
 	defer cancel()
 	tx, err := s.conn.BeginTx(ctx, &sql.TxOptions{ReadOnly: true})
@@ -212,6 +227,212 @@ func (s *sqlDB) contentHash() (string, error) {
 		r.Close()
 	}
 	return fmt.Sprintf("%d-tables/%d-rows/%x", len(tables), n, h.Sum(nil)[:10]), nil
+}
+
+// ---- SQL child process -------------------------------------------------------
+
+type sqlReq struct {
+	Op     string   `json:"op"` // open | exec | query1 | hash | close
+	H      int      `json:"h,omitempty"`
+	Path   string   `json:"path,omitempty"`
+	RO     bool     `json:"ro,omitempty"`
+	Params []string `json:"params,omitempty"`
+	Q      string   `json:"q,omitempty"`
+}
+
+type sqlResp struct {
+	Err string `json:"err,omitempty"`
+	Val string `json:"val,omitempty"`
+	H   int    `json:"h,omitempty"`
+}
+
+// SQLChild is the main loop of `vcheck sqlchild`: JSON requests on stdin, JSON
+// replies on stdout. It ends when stdin closes.
+func SQLChild() int {
+	in := bufio.NewReaderSize(os.Stdin, 1<<20)
+	out := json.NewEncoder(os.Stdout)
+	conns := map[int]*localSQL{}
+	next := 0
+	for {
+		line, err := in.ReadBytes('\n')
+		if err != nil {
+			for _, c := range conns {
+				c.close()
+			}
+			return 0
+		}
+		var req sqlReq
+		var resp sqlResp
+		if err := json.Unmarshal(line, &req); err != nil {
+			resp.Err = "bad request: " + err.Error()
+			_ = out.Encode(resp)
+			continue
+		}
+		c := conns[req.H]
+		switch req.Op {
+		case "open":
+			s, err := openLocalSQL(req.Path, req.RO, req.Params...)
+			if err != nil {
+				resp.Err = err.Error()
+			} else {
+				next++
+				conns[next] = s
+				resp.H = next
+			}
+		case "close":
+			if c != nil {
+				c.close()
+				delete(conns, req.H)
+			}
+		case "exec", "query1", "hash":
+			if c == nil {
+				resp.Err = "no such connection"
+				break
+			}
+			var err error
+			switch req.Op {
+			case "exec":
+				err = c.exec(req.Q)
+			case "query1":
+				resp.Val, err = c.queryString(req.Q)
+			case "hash":
+				resp.Val, err = c.contentHash()
+			}
+			if err != nil {
+				resp.Err = err.Error()
+			}
+		default:
+			resp.Err = "unknown op"
+		}
+		if err := out.Encode(resp); err != nil {
+			return 1
+		}
+	}
+}
+
+// sqlProc is the worker's handle on one SQL child process.
+type sqlProc struct {
+	mu   sync.Mutex
+	cmd  *exec.Cmd
+	in   io.WriteCloser
+	out  *bufio.Reader
+	dead bool
+}
+
+var errSQLChildTimeout = errors.New("SQL child did not answer in time (killed)")
+
+func startSQLProc() (*sqlProc, error) {
+	exe, err := os.Executable()
+	if err != nil {
+		return nil, err
+	}
+	cmd := exec.Command(exe, "sqlchild")
+	cmd.Stderr = io.Discard
+	in, err := cmd.StdinPipe()
+	if err != nil {
+		return nil, err
+	}
+	outp, err := cmd.StdoutPipe()
+	if err != nil {
+		return nil, err
+	}
+	if err := cmd.Start(); err != nil {
+		return nil, err
+	}
+	return &sqlProc{cmd: cmd, in: in, out: bufio.NewReaderSize(outp, 1<<20)}, nil
+}
+
+func (p *sqlProc) stop() {
+	if p == nil {
+		return
+	}
+	p.mu.Lock()
+	defer p.mu.Unlock()
+	if !p.dead {
+		p.dead = true
+		_ = p.in.Close()
+		done := make(chan struct{})
+		go func() { _ = p.cmd.Wait(); close(done) }()
+		select {
+		case <-done:
+		case <-time.After(5 * time.Second):
+			_ = p.cmd.Process.Kill()
+			<-done
+		}
+	}
+}
+
+func (p *sqlProc) call(req sqlReq) (sqlResp, error) {
+	p.mu.Lock()
+	defer p.mu.Unlock()
+	if p.dead {
+		return sqlResp{}, errors.New("SQL child is gone")
+	}
+	b, _ := json.Marshal(req)
+	if _, err := p.in.Write(append(b, '\n')); err != nil {
+		return sqlResp{}, err
+	}
+	type res struct {
+		line []byte
+		err  error
+	}
+	ch := make(chan res, 1)
+	go func() {
+		line, err := p.out.ReadBytes('\n')
+		ch <- res{line, err}
+	}()
+	select {
+	case r := <-ch:
+		if r.err != nil {
+			p.dead = true
+			return sqlResp{}, fmt.Errorf("SQL child died: %w", r.err)
+		}
+		var resp sqlResp
+		if err := json.Unmarshal(r.line, &resp); err != nil {
+			return sqlResp{}, err
+		}
+		if resp.Err != "" {
+			return resp, errors.New(resp.Err)
+		}
+		return resp, nil
+	case <-time.After(150 * time.Second):
+		p.dead = true
+		_ = p.cmd.Process.Kill()
+		go func() { _ = p.cmd.Wait() }()
+		return sqlResp{}, errSQLChildTimeout
+	}
+}
+
+// sqlDB is one SQLite connection living in a SQL child process.
+type sqlDB struct {
+	p *sqlProc
+	h int
+}
+
+func (p *sqlProc) open(path string, readOnly bool, params ...string) (*sqlDB, error) {
+	r, err := p.call(sqlReq{Op: "open", Path: path, RO: readOnly, Params: params})
+	if err != nil {
+		return nil, err
+	}
+	return &sqlDB{p: p, h: r.H}, nil
+}
+
+func (s *sqlDB) close() {
+	if s != nil {
+		_, _ = s.p.call(sqlReq{Op: "close", H: s.h})
+	}
+}
+func (s *sqlDB) exec(q string) error {
+	_, err := s.p.call(sqlReq{Op: "exec", H: s.h, Q: q})
+	return err
+}
+func (s *sqlDB) queryString(q string) (string, error) {
+	r, err := s.p.call(sqlReq{Op: "query1", H: s.h, Q: q})
+	return r.Val, err
+}
+func (s *sqlDB) contentHash() (string, error) {
+	r, err := s.p.call(sqlReq{Op: "hash", H: s.h})
+	return r.Val, err
 }
 
 // ---------------------------------------------------------------------------
@@ -287,7 +508,7 @@ func plainHash(dir string, img *ref.Image, tag string) (hash, integrity string, 
 		return "", "", err
 	}
 	defer os.Remove(path)
-	s, err := openSQL(path, true, "immutable=1")
+	s, err := openLocalSQL(path, true, "immutable=1")
 	if err != nil {
 		return "", "", err
 	}
@@ -369,7 +590,13 @@ func runKMount(c *core.Case, variant string, k int) {
 	fail := func(fp, what string, extra map[string]any) {
 		c.Violate(P0+"/kmount/"+fp, what, detail(extra))
 	}
-	w, err := openSQL(filepath.Join(P.MountDir(), "db"), false)
+	wproc, err := startSQLProc()
+	if err != nil {
+		c.Inconclusive("SQL child: " + err.Error())
+		return
+	}
+	defer wproc.stop()
+	w, err := wproc.open(filepath.Join(P.MountDir(), "db"), false)
 	if err != nil {
 		fail("open", "cannot open the database through the mount: "+err.Error(), nil)
 		return
@@ -455,33 +682,42 @@ func runKMount(c *core.Case, variant string, k int) {
 	var R *cluster.CNode
 	startReader := func() {
 		R = cl.Nodes[1]
+		rproc, err := startSQLProc()
+		if err != nil {
+			return
+		}
 		rwg.Add(1)
 		go func() {
 			defer rwg.Done()
-			var r *sqlDB
-			defer func() { r.close() }()
+			defer rproc.stop()
 			for !stop.Load() {
-				if r == nil {
-					if mon.PosOf(R.Node, "db").TXID == 0 {
-						time.Sleep(2 * time.Millisecond)
-						continue
-					}
-					var err error
-					if r, err = openSQL(filepath.Join(R.MountDir(), "db"), true); err != nil {
-						r = nil
-						time.Sleep(2 * time.Millisecond)
-						continue
-					}
+				if mon.PosOf(R.Node, "db").TXID == 0 {
+					time.Sleep(2 * time.Millisecond)
+					continue
+				}
+				// a fresh connection per read: an idle WAL-mode connection keeps the
+				// database SHARED lock for its whole life, and if the primary
+				// meanwhile switches the database to a rollback-journal mode the
+				// replica's apply (which then needs that lock exclusively) waits for
+				// the application to close it - LiteFS cannot pre-empt application
+				// locks, so that wait is not judged here
+				r, err := rproc.open(filepath.Join(R.MountDir(), "db"), true)
+				if err != nil {
+					time.Sleep(2 * time.Millisecond)
+					continue
 				}
 				b := mon.PosOf(R.Node, "db")
 				h, err := r.contentHash()
 				a := mon.PosOf(R.Node, "db")
+				r.close()
 				smu.Lock()
 				if len(samples) < 400 {
 					samples = append(samples, rsample{b, a, h, err})
 				}
 				smu.Unlock()
-				time.Sleep(time.Duration(1+c.Rng.IntN(4)) * time.Millisecond)
+				// leave gaps: a reader that re-takes SHARED back to back starves the
+				// replica's apply (which polls for the exclusive lock)
+				time.Sleep(time.Duration(10+c.Rng.IntN(30)) * time.Millisecond)
 			}
 		}()
 	}
@@ -578,6 +814,11 @@ func runKMount(c *core.Case, variant string, k int) {
 			if withReplica {
 				ok, _, timedOut := cl.WaitConverged(P, R, []string{"db"}, 8, 30*time.Second)
 				if timedOut {
+					if os.Getenv("VERIF_KDEBUG") != "" {
+						buf := make([]byte, 1<<22)
+						buf = buf[:runtime.Stack(buf, true)]
+						_ = os.WriteFile(fmt.Sprintf("/dev/shm/kstall-%d.txt", c.Index), buf, 0o644)
+					}
 					c.Inconclusive("replica convergence watchdog")
 					return
 				}
@@ -585,7 +826,7 @@ func runKMount(c *core.Case, variant string, k int) {
 					fail("replica-not-converged", fmt.Sprintf("the replica is at %s, the primary at %s", mon.PosOf(R.Node, "db"), mon.PosOf(P.Node, "db")), nil)
 					return
 				}
-				r, err := openSQL(filepath.Join(R.MountDir(), "db"), true)
+				r, err := wproc.open(filepath.Join(R.MountDir(), "db"), true)
 				if err != nil {
 					fail("replica-open", err.Error(), nil)
 					return
